@@ -4,7 +4,13 @@ CFG = {'assumptions': ["64*len(words) < 2^31 (Go's int32 positions cannot overfl
                  'select queries: 0 <= i < number of 1-bits; the select index is the one IndexSelect32 / '
                  'IndexSelect32R64 built for the same words',
                  'select(rank(p)) composites: 0 <= p < 64*len(words) and some 1-bit at or after p (otherwise Select32 '
-                 'is called with i = n, outside its domain)'],
+                 'is called with i = n, outside its domain)',
+                 'unexported helpers (reached through the build-tag-guarded hook file bitmap/verif_export.go): '
+                 'select32single with the index IndexSelect32 built for the same words, any int32 i (inside [0, number '
+                 'of 1-bits) the position of the i-th 1-bit; outside it the two sentinels -1 / 64*len that the code '
+                 'and its own tests state); indexSelectU64 on any uint64 word; selectU64Indexed(w, indexSelectU64(w), '
+                 'k) only for 0 <= k < popcount(w) (for k >= popcount(w) the code reads the table at an unrelated '
+                 'index or panics: outside every statement, never compared)'],
  'files': ['bitmap/select.go', 'bitmap/rank.go', 'bitmap/mask.go', 'bitmap/next.go', 'bitmap/toarray.go'],
  'go': {'bitmap.IndexSelect32': 'bitmap.IndexSelect32',
         'bitmap.IndexSelect32/held': 'bitmap.IndexSelect32(ws), then index builds on a decoy, then the first index is '
@@ -42,7 +48,25 @@ CFG = {'assumptions': ["64*len(words) < 2^31 (Go's int32 positions cannot overfl
                                       'len(ToArray)',
         'bitmap.Select32R64/held': 'bitmap.IndexSelect32R64(ws), index builds on a decoy, bitmap.Select32R64 twice',
         'bitmap.Select32R64/rle': 'bitmap.IndexSelect32R64 + bitmap.Select32R64 on the expanded run-length encoded '
-                                  'bitmap'},
+                                  'bitmap',
+        'bitmap.Select32R64/session': 'ONE []uint64 buffer held for the whole case: bitmap.IndexSelect32R64 + '
+                                      'bitmap.Select32R64 queries interleaved with in-place edits of the buffer each '
+                                      'followed by a re-index',
+        'bitmap.indexSelectU64': 'bitmap.indexSelectU64 (through bitmap.VerifIndexSelectU64)',
+        'bitmap.select32single': 'bitmap.IndexSelect32 + bitmap.select32single (through bitmap.VerifSelect32Single), 0 '
+                                 '<= i < number of 1-bits',
+        'bitmap.select32single/Select32': 'bitmap.select32single beside bitmap.Select32 with one and the same index: '
+                                          '[single, a, b]',
+        'bitmap.select32single/rle': 'bitmap.IndexSelect32 + bitmap.select32single on the expanded run-length encoded '
+                                     'bitmap',
+        'bitmap.select32single/sentinel': 'bitmap.IndexSelect32 + bitmap.select32single for i < 0 (-1) and i >= number '
+                                          'of 1-bits (64*len)',
+        'bitmap.select8Lookup/row': 'row b (8 entries) of the package table select8Lookup as initSelectLookup left it '
+                                    '(through bitmap.VerifSelect8Lookup)',
+        'bitmap.selectU64Indexed': 'bitmap.indexSelectU64(w) + bitmap.selectU64Indexed(w, index, k) (through the Verif '
+                                   'hooks): [position, second result]',
+        'bitmap.selectU64Indexed/Select32': 'bitmap.selectU64Indexed(w, indexSelectU64(w), k) beside '
+                                            'bitmap.Select32([w], IndexSelect32([w]), k): the two positions'},
  'rule': 'cases = corpus + held-index cases over ascending word counts 1..70 (index built, decoy indexes built, then '
          'the first index queried twice; inputs compared before/after) + exhaustive sweeps (every non-zero byte at '
          'byte positions of a one-word bitmap and as upper byte of a 16-bit quarter x all i = select8Lookup through '
@@ -76,4 +100,22 @@ CFG = {'assumptions': ["64*len(words) < 2^31 (Go's int32 positions cannot overfl
          'bit per word, 1-bits behind a long empty run, islands between long empty runs}; index ops and selects at 0, '
          'the last two 1-bits, the last checkpoint, 1-bit counts 2^15 / 2^16 / 2^20 and one below, the 1-bits of words '
          '2^15+-1 and 2^16+-1, random; judged by the linear-time lin_Select / lin_IndexSelect32 proved equal to the '
-         'model (C02_rle_run_is_model_*); key = (family, words)'}
+         'model (C02_rle_run_is_model_*); key = (family, words). Unexported helpers (harness/c02u.go): select32single '
+         '(and the relational select32single/Select32 on one case in four, all in the thorough tier) is run beside '
+         'EVERY Select32 case of the generators above with the same key prefixed single/, incl. the run-length encoded '
+         'very large bitmaps; its sentinels (i = -1, minint, random negative; n, n+1, n|31 inside the last 32-block so '
+         'that the word loop runs off the end, with 0..3 empty tail words; the next block boundary and beyond, 64*len, '
+         'maxint) on every bitmap of at most 70 words whose index is built, key = (which sentinel, tail, words). '
+         'select8Lookup: all 256 rows read out of the package. indexSelectU64 / selectU64Indexed: ALL 256 byte values '
+         'at every byte position of an otherwise empty word x all k (exhaustive), of an otherwise all-ones word and of '
+         'a random word (a third / a quarter of them in the quick tier, k inside the byte and one either side; all in '
+         'the thorough tier); all 1- and 2-bit words x all k; the empty word, all-ones, all 64 words with 63 bits, '
+         'words with 62 bits; all 256 words whose bytes are each 00 or ff with k at every byte edge; random words in 9 '
+         'density classes (1/16 .. 15/16, pattern mix, byte-structured) x all k. An index case is non-trivial for a '
+         'non-zero word, key = (popcount class, non-empty bytes); a selectU64Indexed case is non-trivial for k >= 1, '
+         'key = (popcount class, byte holding the answer, rank inside that byte, number of 1-bits below that byte). '
+         'Sessions on one held buffer (bitmap.Select32R64/session): 2..9 sparse words; up to 4 rounds of [query i '
+         'whose next 1-bit lies in a later word; move that 1-bit to another word in place or overwrite the whole '
+         'buffer; re-index; query exactly i+1]; key = (words, moves, whole-buffer rewrites). One 2^17+3-word '
+         'run-length encoded bitmap in both tiers with queries in its last three words (rank index built in parallel '
+         'chunks)'}
